@@ -101,9 +101,14 @@ CLAIMED = {
         text="Lean 4 theorems on the 'program = trace' IR for abstract operators, arbitrary memory and unbounded depth: the buffer-rotating "
              "programs of the V-, W- and F-cycle and of the implicitly extrapolated cycles compute exactly the textbook recursion; the result "
              "does not depend on scratch buffers; right-hand sides are never written; two levels without smoothing give u + P A_c^-1 R (f - A u) "
-             "resp. the 4/3, -1/3 extrapolated combination; the exact solution is a fixed point under the stated operator hypotheses.  Tie: the "
-             "hooks log every vector-level operation of one private cycle and the log must equal the model program token for token.",
-        design_ref="DESIGN.md section 4, C10", note="Lean kernel (core only); the operators behind each instruction are tied by C03/C04/C06/C07/C08.",
+             "resp. the 4/3, -1/3 extrapolated combination; the exact solution is a fixed point under the stated operator hypotheses.  C10c instantiates the IR with the "
+             "code-level models (GMGModel/Concrete.lean: assembled line matrices and LDL^T line solves, residual stencil, bilinear transfers, "
+             "sparse-LU coarse solve): the strict interpreter the driver executes equals the interpreter of the theorems, and on every "
+             "admissible two-level hierarchy with a Dirichlet inner boundary and elliptic data the concrete V-, W- and F-cycle leaves the "
+             "exact discrete solution unchanged — with no operator hypothesis left.  Tie: the hooks log every vector-level operation of one "
+             "private cycle and the log must equal the model program token for token; the whole concrete cycle is executed in the model "
+             "(IEEE double, exact rationals for the smallest cases) against the real cycle.",
+        design_ref="DESIGN.md section 4, C10 and R.9", note="Lean kernel; the operators behind each instruction are tied by C03/C04/C06/C07/C08 and, composed, by the whole-cycle stage.",
         technique="Lean 4 proof (refinement of an instruction list to a functional spec, frame rule) + exact symbolic trace comparison"),
     "C01": dict(
         category="proof",
